@@ -800,6 +800,63 @@ def multi_part(check):
                         broken="correspondence L2 reconcile across crates (theorems TsV.C09.C09_reconcile_*)")
 
 
+def cross_crate_part(check):
+    """multi-file mode: a serde-renamed type of one crate is referred to from another crate (`use provider::T;` or the qualified
+    path `provider::T`); the provider's name may *begin with* the name of a crate the import collector ignores (`http_api`,
+    `time_utils`, `std_ext`, `serde_models` ...).  The reference must be spelled with the name the provider defines the type under."""
+    rng = check.rng
+    g = mkgen(rng)
+    ts = [m_path("typeshare")]
+    providers = ["models", "http_api", "time_utils", "std_ext", "serde_models", "synth", "zip_codes", "ring_buffer", "core_types", "timeline"]
+    ncases = 40 if check.thorough else 10
+    mreqs, rreqs, meta, allnames = [], [], [], set()
+    for k in range(ncases):
+        prov = providers[(k + rng.randint(0, 2)) % len(providers)]
+        base = rng.choice(["Request", "Account", "Token"])
+        new = "Api" + base
+        how = rng.choice(["use", "use", "qualified", "use-group"])
+        pf = {"attrs": [], "items": [{"kind": "struct", "attrs": list(ts) + [m_list("serde", [m_nv("rename", lit_s(new))])], "ident": base,
+                                     "generics": [], "fields": ("named", [field([], "id", t_path("u8"))])}]}
+        q = [prov] if how == "qualified" else []
+        uf = {"attrs": [], "items": [
+            {"kind": "struct", "attrs": list(ts), "ident": "Consumer", "generics": [],
+             "fields": ("named", [field([], "one", t_path(base, quals=q)), field([], "many", t_path("Vec", [t_path(base, quals=q)])),
+                                  field([], "keyed", t_path("HashMap", [t_path("String"), t_path(base, quals=q)]))])},
+            {"kind": "alias", "attrs": list(ts), "ident": "Shortcut", "generics": [], "ty": t_path(base, quals=q)}]}
+        if how == "use":
+            uf["items"].insert(0, {"kind": "use", "tree": ("upath", prov, ("uname", base))})
+        elif how == "use-group":
+            uf["items"].insert(0, {"kind": "use", "tree": ("upath", prov, ("ugroup", [("uname", "helper"), ("uname", base)]))})
+        jobs = [{"crate": prov, "file_name": prov + ".out", "path": "%s/src/lib.rs" % prov, "file": pf},
+                {"crate": "zconsumer", "file_name": "zconsumer.out", "path": "zconsumer/src/lib.rs", "file": uf}]
+        allnames |= l2.names_of(pf) | l2.names_of(uf)
+        for lang in LANGS:
+            m, r, texts = l2.requests(lang, cfg_of(lang, ""), jobs, g, multi_file=True)
+            mreqs.append(m)
+            rreqs.append(r)
+            meta.append((lang, prov, base, new, how, texts))
+    mans = [l2.norm(a) for a in model(mreqs, names=allnames)]
+    rans = [l2.norm(a) for a in runner(rreqs)]
+    mismatch = None
+    for (lang, prov, base, new, how, texts), ma, ra in zip(meta, mans, rans):
+        check.saw(("cross-crate", lang, prov, base, how), nontrivial=True)
+        check.count("cross-crate-%s" % lang)
+        if "ok" in ra:
+            text = ra["ok"].get("zconsumer", "")
+            body = "\n".join(l for l in text.split("\n") if not l.lstrip().startswith("import "))
+            if re.search(r"\b%s\b" % re.escape(base), body) and not re.search(r"\b%s\b" % re.escape(new), body):
+                check.violation("%s multi-file: crate `%s` defines `%s` as `%s`, the consumer (reference written as %s) still refers to `%s`"
+                                % (lang, prov, base, new, how, base), case={"lang": lang, "sources": texts}, impl=ra, model=ma, failing_input=True)
+                return
+        if ma != ra and mismatch is None:
+            mismatch = (lang, texts, ma, ra)
+    if mismatch:
+        lang, texts, ma, ra = mismatch
+        check.violation("%s multi-file generation differs from the model on a cross-crate reference to a renamed type" % lang,
+                        case={"lang": lang, "sources": texts}, impl=ra, model=ma, failing_input=False,
+                        broken="correspondence L2 reconcile across crates (theorems TsV.C09.C09_reconcile_*)")
+
+
 def go_acronym_part(check):
     """Go with `uppercase_acronyms`: the acronym pass is applied to definition names and to formatted type strings alike, so
     a type whose name contains a configured acronym must be spelled identically where it is defined and wherever it is
@@ -964,6 +1021,8 @@ def run(check):
     replay_witnesses(check)
     if not check.violations:
         multi_part(check)
+    if not check.violations:
+        cross_crate_part(check)
     if not check.violations:
         kotlin_import_part(check)
     if not check.violations:
